@@ -6,6 +6,9 @@ from contracts import c02_remove_reactions as RR
 from contracts import c02_groups as GR
 from contracts import c02_remove_metabolites as RM
 from contracts import c02_rxn_add_metabolites as RAM
+from contracts import c02_add_reactions as AR
+from contracts import c02_remove_reactions_ctx as RRC
+from contracts import c12_rxn_arith as ARITH
 from props._generic import run_property, replay_with_driver
 
 LEVEL = "other"
@@ -28,8 +31,8 @@ KEYS_RR = ["Model.remove_reactions"]
 def run(rep):
     run_property(rep, KEYS, more=[(RENAME_KEYS, c02_rename.HOOKS), (BOUNDARY_KEYS, c02_boundary.HOOKS), (KEYS_UG, U.HOOKS), (KEYS_AM, AM.HOOKS),
                                    (KEYS_RR, RR.HOOKS), (GR.KEYS, GR.HOOKS), (RM.KEYS, RM.HOOKS), (RAM.KEYS, RAM.HOOKS),
-                                   (RAM.KEYS_SUB, RAM.HOOKS_SUB)],
-                 lemmas=lambda: U.lemmas() + RAM.lemmas(), explanation=(
+                                   (RAM.KEYS_SUB, RAM.HOOKS_SUB), (AR.KEYS, AR.HOOKS), (RRC.KEYS, RRC.HOOKS)] + list(ARITH.GROUPS),
+                 lemmas=lambda: U.lemmas() + RAM.lemmas() + RRC.lemmas() + ARITH.lemmas(), explanation=(
         "Deductive part: the clauses `identifiers are unique` and `every listed object is the one found by looking up its "
         "identifier` hold because every model edit changes model.reactions/metabolites/genes/groups only through the DictList "
         "operations listed here, each proved (C15 contracts, unbounded) to preserve the representation invariant and to produce "
@@ -127,8 +130,26 @@ def run(rep):
         "undo-restores:combine / :replace (the call followed by its registered undo call restores stoichiometry, reaction sets "
         "and solver rows). Not covered there: keys that belong to another model (copied), new metabolites inside a context, another "
         "object with the same identifier on a model-less reaction. "
+        "Model.add_reactions (no context open; argument lists, models and stoichiometries of any size; two nested loops under hand "
+        "invariants): the listed reactions whose identifier is unknown join model.reactions as its new tail in argument order (well "
+        "formed again) and point at the model, the others are ignored and untouched; every key of a joining reaction is afterwards THE "
+        "member of model.metabolites with that identifier, with the coefficient the entry key had (re-pointing), unknown metabolites "
+        "join through Model.add_metabolites (proved contract applied), every key lists the reaction, genes by the proved contract of "
+        "update_genes_from_gpr, exactly one _populate_solver(pruned) call in the exit state (recorded), two new reactions with one "
+        "identifier raise ValueError before anything changed; frame over all other reactions, reaction sets and groups. "
+        "Model.remove_reactions with a context open (remove_orphans=False): the final state as without a context plus the undo "
+        "registrations as a ghost trace - all in the innermost context, per listed reaction the block [objective coefficients,] "
+        "_populate_solver([r]), setattr(r, _model, model), reactions.add(r), one x._reaction.add(r) per metabolite / gene that listed "
+        "it, one g.add_members([r]) per group that contained it, nothing else and nothing twice; glue lemmas undo-restores (model "
+        "pointers, list content, back references, group members). Reaction arithmetic: __imul__ (in a model without / with context, "
+        "detached; every coefficient scaled, bounds swapped and negated iff coefficient < 0, one _populate_solver call, the two undo "
+        "registrations, lemma undo-restores; precondition inside a context: coefficient != 0), __iadd__ / __isub__ (exactly one "
+        "add_metabolites / subtract_metabolites call with the operand's dictionary and combine=True, the rule decision table, the "
+        "operand untouched; in a model without context the EFFECT through the proved add_metabolites contract), __mul__ / __add__ / "
+        "__sub__ (copies by the proved Reaction.copy contract, the in-place operator applied to the copy only, operands and every "
+        "existing object unchanged). "
         "The documented effect of each other public "
-        "editing operation on stoichiometry, gene sets, back-references and groups (add_reactions re-pointing, "
+        "editing operation on stoichiometry, gene sets, back-references and groups (add_reactions inside a context, "
         "remove_genes/rename_genes, merge), the parsing of the rule text and what the "
         "registered undo functions do when they run are NOT "
         "proved - those functions mix sympy/optlang calls, string parsing and nested loops outside the supported subset: bounded "
